@@ -2,10 +2,10 @@ package main
 
 import (
 	"fmt"
-	"os"
 	"go/ast"
 	"go/token"
 	"go/types"
+	"os"
 	"sort"
 	"strings"
 
@@ -30,30 +30,31 @@ func (s *State) clone() *State {
 
 // Engine holds what is shared between all frames of one function verification.
 type Engine struct {
-	vc       *VC
-	prog     *Program
-	cs       *Contracts
-	compSort map[string]string // component -> SMT sort
-	inlineN  int
-	maxDepth int
-	callLog  []*CallRec // every call executed in the top frame (for @pattern and must-call)
-	siteHits map[*SiteSpec]int
-	sitePat  map[*SiteSpec]int
-	siteInstr map[*SiteSpec]ssa.Instruction
-	topFrame *Frame
-	rngCtr   int
-	compPkgs map[string]map[string]bool
-	importsOf map[*types.Package]map[string]bool
-	safeCtr  map[string]int
-	callCtr  map[string]int
-	usedPure map[string]bool
-	qn       int
-	cardDone map[string]bool
-	condSets map[string]condSetInfo
+	vc          *VC
+	prog        *Program
+	cs          *Contracts
+	compSort    map[string]string // component -> SMT sort
+	inlineN     int
+	maxDepth    int
+	callLog     []*CallRec // every call executed in the top frame (for @pattern and must-call)
+	siteHits    map[*SiteSpec]int
+	sitePat     map[*SiteSpec]int
+	siteInstr   map[*SiteSpec]ssa.Instruction
+	topFrame    *Frame
+	allocEvents []allocEvent
+	rngCtr      int
+	compPkgs    map[string]map[string]bool
+	importsOf   map[*types.Package]map[string]bool
+	safeCtr     map[string]int
+	callCtr     map[string]int
+	usedPure    map[string]bool
+	qn          int
+	cardDone    map[string]bool
+	condSets    map[string]condSetInfo
 	privGlobals []string
-	hasLocals bool
+	hasLocals   bool
 	condHandles map[string]condHandle
-	recFns map[string]*recInfo
+	recFns      map[string]*recInfo
 	privFields  map[string]string // field component -> package path, for unexported fields
 }
 
@@ -84,36 +85,36 @@ type retPoint struct {
 }
 
 type Frame struct {
-	eng       *Engine
-	fn        *ssa.Function
-	vals      map[ssa.Value]Term
-	closures  map[ssa.Value]*Closure
-	depth     int
-	tag       string
-	con       *Contract
-	entry     *State
-	top       bool
-	rets      []retPoint
-	loopMods  map[*ssa.BasicBlock]map[string]bool
-	hdrStates map[*ssa.BasicBlock]*State
-	loopOrd   map[*ssa.BasicBlock]int
-	ranges    map[ssa.Value]*rangeInfo
-	defers    []*ssa.Defer
-	params    []Term
-	srcNames  map[string]ssa.Value
-	srcRefs   map[string][]*ssa.DebugRef
-	srcAddrs  map[string]ssa.Value
-	parent    *Frame
-	curBlock  *ssa.BasicBlock
-	curIdx    int
-	caseRecvs []Term
-	inLoopHdr *ssa.BasicBlock
-	loopBody  map[*ssa.BasicBlock]map[*ssa.BasicBlock]bool
-	frameDone bool
+	eng          *Engine
+	fn           *ssa.Function
+	vals         map[ssa.Value]Term
+	closures     map[ssa.Value]*Closure
+	depth        int
+	tag          string
+	con          *Contract
+	entry        *State
+	top          bool
+	rets         []retPoint
+	loopMods     map[*ssa.BasicBlock]map[string]bool
+	hdrStates    map[*ssa.BasicBlock]*State
+	loopOrd      map[*ssa.BasicBlock]int
+	ranges       map[ssa.Value]*rangeInfo
+	defers       []*ssa.Defer
+	params       []Term
+	srcNames     map[string]ssa.Value
+	srcRefs      map[string][]*ssa.DebugRef
+	srcAddrs     map[string]ssa.Value
+	parent       *Frame
+	curBlock     *ssa.BasicBlock
+	curIdx       int
+	caseRecvs    []Term
+	inLoopHdr    *ssa.BasicBlock
+	loopBody     map[*ssa.BasicBlock]map[*ssa.BasicBlock]bool
+	frameDone    bool
 	appendStatic int
-	backEdgeN map[*ssa.BasicBlock]int
-	loopEntries map[*ssa.BasicBlock]*State
-	frameTs   []modTarget
+	backEdgeN    map[*ssa.BasicBlock]int
+	loopEntries  map[*ssa.BasicBlock]*State
+	frameTs      []modTarget
 }
 
 type rangeInfo struct {
@@ -918,6 +919,10 @@ func (fr *Frame) merge(b *ssa.BasicBlock, edges []edgeIn) *State {
 		t := fr.val(phi.Edges[edges[len(edges)-1].predIdx])
 		for i := len(edges) - 2; i >= 0; i-- {
 			t = ite(edges[i].st.pc, fr.val(phi.Edges[edges[i].predIdx]), t)
+		}
+		if top := fr.eng.topFrame; top != nil && top.con != nil && top.con.Options["namedjoins"] && strings.HasPrefix(t, "(ite") {
+			// a join value that is a constant symbol can be used in quantifier patterns (an ite cannot)
+			t = fr.eng.vc.name("phi", fr.eng.vc.sortOf(phi.Type()), t)
 		}
 		fr.setVal(phi, t)
 		if c := fr.mergeClosure(phi, edges); c != nil {
